@@ -158,11 +158,26 @@ class Mutator(object):
         q = list(q)
         kind = r.choice(['repeat', 'conflict', 'emptyval', 'badpct',
                          'bignum', 'unknown', 'dropkey', 'string', 'suffix',
-                         'nokey', 'rawamp'])
+                         'nokey', 'rawamp', 'many'])
         if not q and kind not in ('unknown', 'rawamp', 'nokey'):
             kind = 'unknown'
         if kind == 'repeat':
             q.insert(r.randrange(len(q) + 1), r.choice(q))
+        elif kind == 'many':
+            # one filter repeated beyond the number of tables a database
+            # joins in one query (MySQL 61, SQLite 64)
+            pref = [x for x in q if x[0].startswith(('member_of', 'required'))]
+            if not pref:
+                # (a resources<N> group repeated 130 times is a legal request
+                # whose candidates take hours to combine: not this property)
+                q.insert(r.randrange(len(q) + 1), r.choice(q))
+                return q, 'query-repeat'
+            k, v = r.choice(pref)
+            n = r.choice([61, 64, 65, 130])
+            if r.random() < 0.3 and v:
+                q[q.index((k, v))] = (k, ','.join([v] * n))
+            else:
+                q.extend([(k, v)] * n)
         elif kind == 'conflict':
             k, v = r.choice(q)
             q.insert(r.randrange(len(q) + 1),
